@@ -48,10 +48,10 @@ add("C09", "TestC09",
           "runes, CRLF pairs, escape pairs, multi-byte delimiters and the BOM, runs of <=3 (0,nil) reads, data returned with io.EOF). "
           "Oracle: the transcript (records, error classes and texts, checksums) under each schedule equals the single-chunk transcript. "
           "Non-trivial: >= 2 results before the terminal one and a schedule with a forced cut inside one of those byte pairs; distinct by "
-          "SHA-256 of the serialised case."),
+          "SHA-256 of the serialised case. About 12 % of the cases take one of the repository's own sample schemas with (the first 4 KiB of) its sample input as subject instead of a generated shape (class repo-sample)."),
     quick={"checks": 2500, "shards": 4, "timeout": 600},
     thorough={"checks": 20000, "shards": 16, "timeout": 3000, "fuzz": [{"target": "FuzzC09", "time": 180}]},
-    floors={"cut=rune": 0.10, "cut=crlf": 0.10, "cut=escape": 0.10, "cut=bom": 0.10, "malformed": 0.10, "zero-reads": 0.2},
+    floors={"repo-sample": 0.04, "cut=rune": 0.10, "cut=crlf": 0.10, "cut=escape": 0.10, "cut=bom": 0.10, "malformed": 0.10, "zero-reads": 0.2},
     assumptions=["runs of (0,nil) reads are capped at 3 (bufio legitimately gives up with ErrNoProgress after 100)",
                  "for the json format the digits after 'line ' in error texts are masked (documented as a rough number that depends on decoder pre-fetch)"])
 
@@ -64,10 +64,10 @@ add("C16", "TestC16", level="fault_enumeration",
           "Oracle: a terminal result within N+3 Reads (N = length of the fault-free transcript), repeated unchanged by two "
           "further Reads; all earlier results except possibly the last equal the fault-free results (kind, JSON, checksum). "
           "evaluations counts inputs; counters.fault_positions counts transform runs. Non-trivial: input with >= 2 results and > 2 bytes "
-          "(so faults fall strictly inside); distinct by SHA-256 of the serialised case. exhaustive per input, not globally."),
+          "(so faults fall strictly inside); distinct by SHA-256 of the serialised case. exhaustive per input, not globally. About 12 % of the cases take one of the repository's own sample schemas with (the first 4 KiB of) its sample input as subject instead of a generated shape (class repo-sample)."),
     quick={"checks": 400, "shards": 4, "timeout": 600},
     thorough={"checks": 6000, "shards": 16, "timeout": 3000},
-    floors={"transient": 0.3, "format=csv": 0.05, "format=edi": 0.05, "format=xml": 0.05, "format=json": 0.05,
+    floors={"repo-sample": 0.04, "transient": 0.3, "format=csv": 0.05, "format=edi": 0.05, "format=xml": 0.05, "format=json": 0.05,
             "format=fixed-length": 0.05, "format=fixedlength2": 0.05, "format=csv2": 0.05, "std-error-value": 0.2, "bufio-reader": 0.1},
     assumptions=["a run in which the transform never reads as far as the fault must equal the fault-free run; once the fault was reached, a clean "
                  "io.EOF is NOT accepted as terminal result (the failure would be swallowed and the rest of the input silently missing)"],
@@ -108,10 +108,10 @@ add("C15", "TestC15",
           "sub-record value) of one record is modified. Oracle: byte-identical Read output, error text and checksums for first run / "
           "run after the other transforms / fresh process; equal raw records <=> equal checksums on the observed set; the modified "
           "record's checksum changes and no other record's does. Non-trivial: >= 2 records, output object with >= 3 keys and >= 1 other "
-          "transform before the measured one; distinct by SHA-256 of the case."),
+          "transform before the measured one; distinct by SHA-256 of the case. About 12 % of the cases take one of the repository's own sample schemas with (the first 4 KiB of) its sample input as subject instead of a generated shape (class repo-sample)."),
     quick={"checks": 250, "shards": 4, "timeout": 600},
     thorough={"checks": 3000, "shards": 16, "timeout": 3000},
-    floors={"warmed": 0.5, "fresh-process": 0.2, "leaf-mutation": 0.2},
+    floors={"repo-sample": 0.04, "warmed": 0.5, "fresh-process": 0.2, "leaf-mutation": 0.2},
     assumptions=["'now' and random scripts are never generated (excluded by the property)",
                  "leaf mutations are restricted to declared columns / elements, which the raw record is documented to carry"])
 
@@ -211,10 +211,10 @@ add("C13", "TestC13",
           "(replica of ingester.Read using the hook constructor, first checked equal to Transform.Read), xpath expression cache capacity 1 / "
           "emptied per record, javascript caching disabled, program cache capacity 1, node-JSON cache capacity 1 / emptied per record, "
           "everything off, caches left warm by an earlier transform. Oracle: identical transcripts (kind, JSON). Non-trivial: >= 2 "
-          "records and a non-pass-through transform; distinct by SHA-256 of the case."),
+          "records and a non-pass-through transform; distinct by SHA-256 of the case. About 12 % of the cases take one of the repository's own sample schemas with (the first 4 KiB of) its sample input as subject instead of a generated shape (class repo-sample)."),
     quick={"checks": 250, "shards": 4, "timeout": 900},
     thorough={"checks": 4000, "shards": 16, "timeout": 3300},
-    floors={"xform=3": 0.3, "mode=trap": 0.1, "warmed": 0.3},
+    floors={"repo-sample": 0.04, "xform=3": 0.3, "mode=trap": 0.1, "warmed": 0.3},
     assumptions=["uses the build-tag 'verif' hooks in /repo (idr.VerifSetNodeCaching, customfuncs.VerifSetDisableCaching/VerifResetCaches, "
                  "transform.VerifNewParseCtxNoCache); caches.XPathExprCache, JSProgramCache and NodeToJSONCache are exported and swapped directly"])
 
@@ -234,10 +234,10 @@ add("C14", "TestC14", race=True,
           "always shared by >= 2 goroutines), 1-3 repeats, GOMAXPROCS in {1,2,16}, generated runtime.Gosched jitter at Read granularity; "
           "test binary built with -race (GORACE=halt_on_error=1: a report ends the run and the round in progress is the replay). "
           "Oracle: every goroutine's transcript (bytes, errors, checksums) equals the serial transcript of the same (schema, input); no "
-          "race report. Non-trivial: >= 2 different schemas run at once with one Schema shared by >= 2 goroutines; distinct by SHA-256."),
+          "race report. Non-trivial: >= 2 different schemas run at once with one Schema shared by >= 2 goroutines; distinct by SHA-256. About 12 % of the cases take one of the repository's own sample schemas with (the first 4 KiB of) its sample input as subject instead of a generated shape (class repo-sample)."),
     quick={"checks": 100, "shards": 4, "timeout": 900, "gomaxprocs": 16},
     thorough={"checks": 1500, "shards": 16, "timeout": 3300, "gomaxprocs": 16},
-    floors={"javascript": 0.3, "goroutines=16": 0.1, "maxprocs=1": 0.15},
+    floors={"repo-sample": 0.04, "javascript": 0.3, "goroutines=16": 0.1, "maxprocs=1": 0.15},
     assumptions=["the Go scheduler owns the interleavings; the harness only perturbs them (Gosched jitter, GOMAXPROCS)",
                  "a race that needs a rare window may go unseen: the claim is no report and no cross-talk over the rounds run"])
 
